@@ -256,4 +256,12 @@ func init() {
 	// ---------------- C04.R3 reader registration
 	mut("C04", "the read handle is opened before the reader pool lock is taken", "cesium/internal/domain/file_controller.go",
 		"	fc.readers.Lock()\n	defer fc.readers.Unlock()\n	file, err := fc.FS.Open(\n		fileKeyToName(key),\n		os.O_RDONLY,\n	)\n	if err != nil {\n		return nil, span.Error(err)\n	}\n", "	file, err := fc.FS.Open(\n		fileKeyToName(key),\n		os.O_RDONLY,\n	)\n	if err != nil {\n		return nil, span.Error(err)\n	}\n	fc.readers.Lock()\n	defer fc.readers.Unlock()\n", "C04.R3.gc")
+
+	// ---------------- round-3 rules
+	mut("C02", "load rejects an index with an empty last record", "cesium/internal/domain/index_persist.go",
+		"	return p.decode(b), nil\n}", "	ptrs := p.decode(b)\n	if n := len(ptrs); n > 0 && ptrs[n-1].size == 0 {\n		return nil, os.ErrInvalid\n	}\n	return ptrs, nil\n}", "C02.R8.load")
+	mut("C03", "a writer that committed before is not checked against its start", "cesium/internal/domain/writer.go",
+		"	if !w.Start.Before(end) {", "	if w.prevCommit.IsZero() && !w.Start.Before(end) {", "C03.R3.validate")
+	mut("C05", "the last index group decides the reported error", "cesium/writer_stream.go",
+		"		if req.Frame, err = idx.write(&excludeUnauthorized, req.Frame); err != nil {\n			accumulatedErr = err\n", "		req.Frame, err = idx.write(&excludeUnauthorized, req.Frame)\n		accumulatedErr = err\n		if err != nil {\n", "C05.ERR")
 }
